@@ -592,6 +592,23 @@ func (p *Parser) ParsingIter() iter.Seq[*ParserReply] {
 		const depth0 int = 0
 		for {
 			expr, err = p.ParseExpression(depth0)
+			if err == nil && expr == SexpEnd {
+				// out of tokens at top level: the text is complete, so
+				// let the lexer emit a last token that no delimiter follows.
+				flushed, needMore, ferr := p.lexer.finishText()
+				if ferr != nil {
+					err = ferr
+				} else if flushed {
+					continue
+				} else if needMore {
+					// unterminated string literal
+					p.sendMe.Err = ErrMoreInputNeeded
+					if !yield(p.sendMe) {
+						return
+					}
+					continue
+				}
+			}
 			if err != nil || expr == SexpEnd {
 				p.sendMe.Err = err
 				yield(p.sendMe)
